@@ -68,7 +68,7 @@ Proof.
 Qed.
 Lemma get_or_create_resources_head s page : same_head s (fst (get_or_create_resources s page)).
 Proof.
-  unfold get_or_create_resources.
+  unfold get_or_create_resources, get_or_create_resources_with.
   destruct (opt_clone s page) as [s1|] eqn:H1; [|apply same_head_refl].
   apply opt_clone_head in H1.
   destruct (get_object (new_objects s1) page) as [[| | | | | | |pd| |]|]; try exact H1.
